@@ -16,6 +16,7 @@ A triple is a `Quad` with graph name `none`.  `List.Perm` = equality as MULTISET
 two graphs shows twice through a union view.
 -/
 import SophiaProofs.Lemmas.Adapter
+import SophiaProofs.Lemmas.AdapterBulk
 
 namespace SophiaProofs.C11
 open SophiaModel SophiaModel.Term SophiaModel.Store SophiaModel.Adapter
@@ -43,6 +44,12 @@ theorem store_types_lawful :
     · exact gen_tables_ok.2.2.2
   exact ⟨storeLawful d hok, fun _ => Iff.rfl⟩
 
+/-- `Vec<Gspo<T>>` (whose `remove` drops only the first match: not a `Lawful` collection) is lawful for
+READING: every theorem about what a view shows (`partial_union_view`, `dataset_graph_view`, `view_query`,
+`view_contains`, `graph_as_dataset_view`) applies to it in every state -/
+theorem vec_gspo_lawful_read : ∃ L : LawfulRead (vecFirstImpl 4), ∀ s, L.Inv s :=
+  ⟨vecFirstLawfulRead 4 (Or.inr rfl), fun _ h => absurd h (by decide)⟩
+
 -- the invariants are satisfiable: a fresh store of each kind, and a store after an insertion
 example : Good Gen.genericFastDataset (St.new Gen.genericFastDataset.shape Gen.maxU16) :=
   good_new gen_tables_ok.2.1 _
@@ -51,7 +58,7 @@ example (q : Quad) : Good Gen.genericLightGraph (Store.insert (St.new Gen.generi
 example : SetInv 4 [] := ⟨trivial, fun _ _ h => nomatch h⟩
 
 section views
-variable {σ : Type} {I : Impl σ} (L : Lawful I) {s : σ}
+variable {σ : Type} {I : Impl σ} (L : LawfulRead I) {s : σ}
 
 /-! ### a dataset seen as a graph -/
 
@@ -242,7 +249,9 @@ def witnessDataset : St :=
   (Store.insert (St.new Gen.genericLightDataset.shape Gen.maxU32)
     ⟨.iri "x:s".toList, .iri "x:p".toList, .iri "x:o".toList, some (.iri "x:g".toList)⟩).1
 
-/-- **Defect (as shipped).** While `UnionGraph` forwards `iris()` (…) to the dataset, the union graph
+/-- **Regression witness** (the defect repaired by f7b1ae1; VACUOUS for the current source, where the flag is
+`false` — kept, outside the audited obligations, so that a regression of the flag is located by a
+kernel-checked counterexample).  While `UnionGraph` forwards `iris()` (…) to the dataset, the union graph
 enumerates IRIs that occur in none of its triples — the graph names: after
 `insert(x:s, x:p, x:o, x:g)`, `union_graph().iris()` yields `x:g`. -/
 theorem union_enum_atoms_defect (hflag : unionGraphForwardsAtoms = true) : ¬ UnionEnumCoherent := by
@@ -463,8 +472,10 @@ theorem as_dataset_mut_remove (hcall : graphAsDatasetRemoveCalls = .remove) : As
     rw [hr]
     exact ⟨rfl, L.rem_inv t hs, by rw [L.rem_flag t hs (fun _ => rfl)], L.rem_ok t hs (fun _ => rfl)⟩
 
-/-- **Defect (as shipped).** While the body calls the graph's `insert`, removing an ABSENT triple
-through `as_dataset_mut()` answers `true` and ADDS it (fresh `LightGraph`, one operation). -/
+/-- **Regression witness** (the defect repaired by 12da6cd; VACUOUS for the current source, where the flag is
+`.remove` — kept, outside the audited obligations, as is `as_dataset_mut_remove_refuted`).  While the body
+calls the graph's `insert`, removing an ABSENT triple through `as_dataset_mut()` answers `true` and ADDS it
+(fresh `LightGraph`, one operation). -/
 theorem as_dataset_mut_remove_defect (hcall : graphAsDatasetRemoveCalls = .insert) :
     let I := storeImpl Gen.genericLightGraph
     let s0 := St.new Gen.genericLightGraph.shape Gen.maxU32
@@ -538,6 +549,60 @@ theorem forwarding_flags_now :
     unionGraphForwardsAtoms = false := by
   decide
 
+/-! #### the one-step mutation theorems, unconditionally for the current source -/
+
+section now
+variable {σ : Type} {I : Impl σ}
+
+theorem view_insert_now (L : Lawful I) {s : σ} (hs : L.Inv s)
+    (h4 : I.n = 4) (g : GName) (t : Quad) :
+    let q : Quad := ⟨t.s, t.p, t.o, g⟩
+    let r := DatasetGraph.insert I s g t
+    r.1 = (I.insert s q).1 ∧ r.2 = MutRes.ofOption (I.insert s q).2 ∧ L.Inv r.1 ∧
+    (∀ b, r.2 = .ok b →
+      SameSet (I.quads r.1) (q :: I.quads s) ∧
+      (∀ x : Quad, gnameEq g x.g = false → qmem x (I.quads r.1) = qmem x (I.quads s)) ∧
+      (∀ g' : GName, gnameEq g g' = false → SameSet (Spec.graph g' (I.quads r.1)) (Spec.graph g' (I.quads s)))) ∧
+    (r.2 = .errInner → I.quads r.1 = I.quads s) ∧ r.2 ≠ .errOnlyDefaultGraph :=
+  view_insert L forwarding_flags_now.1 hs h4 g t
+
+theorem view_insert_flag_now (L : LawfulSet I) {s : σ} (hs : L.Inv s)
+    (h4 : I.n = 4) (g : GName) (t : Quad) (b : Bool)
+    (h : (DatasetGraph.insert I s g t).2 = .ok b) : b = !qmem ⟨t.s, t.p, t.o, g⟩ (I.quads s) :=
+  view_insert_flag L forwarding_flags_now.1 hs h4 g t b h
+
+theorem view_remove_now (L : Lawful I) {s : σ} (hs : L.Inv s)
+    (h4 : I.n = 4) (g : GName) (t : Quad) :
+    let q : Quad := ⟨t.s, t.p, t.o, g⟩
+    let r := DatasetGraph.remove I s g t
+    r.1 = (I.remove s q).1 ∧ r.2 = .ok (I.remove s q).2 ∧ L.Inv r.1 ∧
+    SameSet (I.quads r.1) ((I.quads s).filter (fun x => !quadEq x q)) ∧
+    (∀ x : Quad, gnameEq g x.g = false → qmem x (I.quads r.1) = qmem x (I.quads s)) ∧
+    (∀ g' : GName, gnameEq g g' = false → SameSet (Spec.graph g' (I.quads r.1)) (Spec.graph g' (I.quads s))) :=
+  view_remove L forwarding_flags_now.2.1 hs h4 g t
+
+theorem view_remove_flag_now (L : LawfulSet I) {s : σ} (hs : L.Inv s)
+    (h4 : I.n = 4) (g : GName) (t : Quad) :
+    (DatasetGraph.remove I s g t).2 = .ok (qmem ⟨t.s, t.p, t.o, g⟩ (I.quads s)) :=
+  view_remove_flag L forwarding_flags_now.2.1 hs h4 g t
+
+theorem as_dataset_mut_insert_now (L : Lawful I) {s : σ}
+    (hs : L.Inv s) (q : Quad) :
+    let t : Quad := ⟨q.s, q.p, q.o, none⟩
+    let r := GraphAsDataset.insert I s q
+    (q.g ≠ none → r = (s, .errOnlyDefaultGraph)) ∧
+    (q.g = none → r.1 = (I.insert s t).1 ∧ r.2 = MutRes.ofOption (I.insert s t).2 ∧ L.Inv r.1 ∧
+      (∀ b, r.2 = .ok b → SameSet (I.quads r.1) (t :: I.quads s)) ∧
+      (r.2 = .errInner → I.quads r.1 = I.quads s)) :=
+  as_dataset_mut_insert L forwarding_flags_now.2.2.1 hs q
+
+theorem as_dataset_mut_insert_flag_now (L : LawfulSet I) {s : σ}
+    (hs : L.Inv s) (q : Quad) (hg : q.g = none) (b : Bool) (h : (GraphAsDataset.insert I s q).2 = .ok b) :
+    b = !qmem ⟨q.s, q.p, q.o, none⟩ (I.quads s) :=
+  as_dataset_mut_insert_flag L forwarding_flags_now.2.2.1 hs q hg b h
+
+end now
+
 /-- **Removing through `as_dataset_mut()`, unconditionally for the current source** -/
 theorem as_dataset_mut_remove_now : AsDatasetMutRemoveSpec :=
   as_dataset_mut_remove forwarding_flags_now.2.2.2.1
@@ -566,6 +631,291 @@ theorem run_coherent_now (d : StoreDesc) (hd : descOK d = true) (max : Nat) (ops
     Good d s ∧ SameSet (abs s) σ.quads ∧ NodupQ (abs s) :=
   run_coherent d hd max ops forwarding_flags_now.1 forwarding_flags_now.2.1 forwarding_flags_now.2.2.1
     (Or.inl forwarding_flags_now.2.2.2.1) hok
+
+/-! ### bulk mutations through `graph_mut(g)`: the DEFAULT methods of `MutableGraph` over the view
+
+No adapter overrides `insert_all` / `remove_all` / `remove_matching` / `retain_matching` (extractor: the method
+set of `MutableGraph for DatasetGraph` and of `MutableDataset for GraphAsDataset` is exactly `insert`,
+`remove`), so on a mutable view they are `Adapter.Defaults` over the view's own methods.  Stated for the source
+as it is now (`forwarding_flags_now`): a regression of a forwarding flag stops them building. -/
+
+section bulk
+variable {σ : Type} {I : Impl σ}
+
+/-- **`remove_all` through `graph_mut(g)`** (the `MutableGraph` default over the view): it never fails; the
+store loses exactly the quads `(t, g)`; every quad of another graph and every other graph view is untouched -/
+theorem view_remove_all (L : Lawful I) {s : σ} (hs : L.Inv s) (h4 : I.n = 4) (g : GName) (ts : List Quad) :
+    ∃ s' c, DatasetGraph.removeAll I s g ts = (s', .ok c) ∧ L.Inv s' ∧
+      SameSet (I.quads s') ((I.quads s).filter (fun x => !qmem x (ts.map (withG g)))) ∧
+      (∀ x : Quad, gnameEq g x.g = false → qmem x (I.quads s') = qmem x (I.quads s)) ∧
+      (∀ g' : GName, gnameEq g g' = false → SameSet (Spec.graph g' (I.quads s')) (Spec.graph g' (I.quads s))) := by
+  obtain ⟨s', c, he, hi, hS⟩ := removeAll_lawful L (dg_remIs (I := I) forwarding_flags_now.2.1 g) (fun _ _ _ h3 => by omega) ts 0 hs
+  rw [filterMap_some_map] at hS
+  exact ⟨s', c, he, hi, hS, others_untouched_of_filter g ts hS⟩
+
+/-- … and for set stores the count is the number of effective removals of the plain-list specification -/
+theorem view_remove_all_count (L : LawfulSet I) {s : σ} (hs : L.Inv s) (h4 : I.n = 4) (g : GName) (ts : List Quad) :
+    (DatasetGraph.removeAll I s g ts).2 = .ok (specRemoveAll (I.quads s) (ts.map (withG g)) 0).2 := by
+  obtain ⟨s', he, _, _⟩ := removeAll_lawfulSet L (dg_remIs (I := I) forwarding_flags_now.2.1 g) (fun _ _ _ h3 => by omega) ts 0 _ hs (SameSet.refl _)
+  rw [filterMap_some_map] at he
+  show (Defaults.removeAll (fun s t => DatasetGraph.remove I s g t) s ts 0).2 = _
+  rw [he]
+
+/-- **`remove_matching` through `graph_mut(g)`** (the `MutableGraph` default: collect
+`self.triples_matching(sm, pm, om)`, then `remove_all`): exactly the quads of graph `g` whose triple matches
+go; every other graph is untouched -/
+theorem view_remove_matching (L : Lawful I) {s : σ} (hs : L.Inv s) (h4 : I.n = 4) (g : GName) (sm pm om : TM) :
+    ∃ s' c, DatasetGraph.removeMatching I s g sm pm om = (s', .ok c) ∧ L.Inv s' ∧
+      SameSet (I.quads s') ((I.quads s).filter (fun q => !(gnameEq g q.g && Spec.tripleMatched sm pm om q))) ∧
+      (∀ x : Quad, gnameEq g x.g = false → qmem x (I.quads s') = qmem x (I.quads s)) ∧
+      (∀ g' : GName, gnameEq g g' = false → SameSet (Spec.graph g' (I.quads s')) (Spec.graph g' (I.quads s))) := by
+  obtain ⟨s', c, he, hi, hS, ho⟩ := view_remove_all L hs h4 g (DatasetGraph.triplesMatching I s g sm pm om)
+  refine ⟨s', c, he, hi, hS.trans (SameSet.of_eq ?_), ho⟩
+  apply List.filter_congr
+  intro x hx
+  have hperm := ((view_query L.toLawfulRead hs h4 sm pm om).2.2 g).trans ((dataset_graph_view L.toLawfulRead hs h4 g).filter _)
+  rw [qmem_collected g (Spec.tripleMatched sm pm om) (tripleMatched_resp sm pm om) (fun _ _ => rfl) _
+    (fun t => (hperm.mem_iff).trans List.mem_filter) x hx]
+
+/-- … and for set stores the count is the number of quads of graph `g` whose triple matches -/
+theorem view_remove_matching_count (L : LawfulSet I) {s : σ} (hs : L.Inv s) (h4 : I.n = 4) (g : GName) (sm pm om : TM) :
+    (DatasetGraph.removeMatching I s g sm pm om).2 =
+      .ok ((I.quads s).filter (fun q => gnameEq g q.g && Spec.tripleMatched sm pm om q)).length := by
+  have hperm := ((view_query L.toLawfulRead hs h4 sm pm om).2.2 g).trans ((dataset_graph_view L.toLawfulRead hs h4 g).filter _)
+  have hc := view_remove_all_count L hs h4 g (DatasetGraph.triplesMatching I s g sm pm om)
+  show (DatasetGraph.removeAll I s g (DatasetGraph.triplesMatching I s g sm pm om)).2 = _
+  rw [hc, specRemoveAll_nodup _ _ 0 (nodupQ_collected L hs g _ _ hperm)]
+  · rw [Nat.zero_add, List.length_map, hperm.length_eq]
+    unfold Spec.graph
+    rw [← filter_map_intoTriple, List.length_map]
+  · intro q hq
+    obtain ⟨t, ht, rfl⟩ := List.mem_map.1 hq
+    obtain ⟨ht1, _⟩ := List.mem_filter.1 (hperm.mem_iff.1 ht)
+    obtain ⟨y, hy, rfl⟩ := List.mem_map.1 ht1
+    obtain ⟨hy1, hy2⟩ := List.mem_filter.1 hy
+    exact qmem_iff.2 ⟨y, hy1, quadEq_withG' hy2⟩
+
+/-- **`retain_matching` through `graph_mut(g)`** (the `MutableGraph` default: collect the triples of
+`self.triples()` not matched, then `remove_all`): graph `g` keeps exactly its matching triples — and every
+OTHER graph keeps everything (the store is NOT filtered as a whole) -/
+theorem view_retain_matching (L : Lawful I) {s : σ} (hs : L.Inv s) (h4 : I.n = 4) (g : GName) (sm pm om : TM) :
+    ∃ s' c, DatasetGraph.retainMatching I s g sm pm om = (s', .ok c) ∧ L.Inv s' ∧
+      SameSet (I.quads s') ((I.quads s).filter (fun q => !gnameEq g q.g || Spec.tripleMatched sm pm om q)) ∧
+      (∀ x : Quad, gnameEq g x.g = false → qmem x (I.quads s') = qmem x (I.quads s)) ∧
+      (∀ g' : GName, gnameEq g g' = false → SameSet (Spec.graph g' (I.quads s')) (Spec.graph g' (I.quads s))) := by
+  obtain ⟨s', c, he, hi, hS, ho⟩ := view_remove_all L hs h4 g
+    ((DatasetGraph.triples I s g).filter (fun t => !Spec.tripleMatched sm pm om t))
+  refine ⟨s', c, he, hi, hS.trans (SameSet.of_eq ?_), ho⟩
+  apply List.filter_congr
+  intro x hx
+  have hperm := (dataset_graph_view L.toLawfulRead hs h4 g).filter (fun t => !Spec.tripleMatched sm pm om t)
+  rw [qmem_collected g (fun t => !Spec.tripleMatched sm pm om t) (tripleMatched_resp sm pm om).not
+    (fun _ _ => rfl) _ (fun t => (hperm.mem_iff).trans List.mem_filter) x hx]
+  cases gnameEq g x.g <;> cases Spec.tripleMatched sm pm om x <;> rfl
+
+/-- **`insert_all` through `graph_mut(g)`** (the `MutableGraph` default over the view): either every triple
+was inserted into graph `g` — the store holds the old quads plus the quads `(t, g)` — or the store's own error
+(index full) ended it after `k` of them; in both cases the other graphs are untouched -/
+theorem view_insert_all (L : Lawful I) {s : σ} (hs : L.Inv s) (h4 : I.n = 4) (g : GName) (ts : List Quad) :
+    (∃ s' c, DatasetGraph.insertAll I s g ts = (s', .ok c) ∧ L.Inv s' ∧
+      SameSet (I.quads s') ((ts.map (withG g)).reverse ++ I.quads s) ∧
+      (∀ x : Quad, gnameEq g x.g = false → qmem x (I.quads s') = qmem x (I.quads s))) ∨
+    (∃ s' k, DatasetGraph.insertAll I s g ts = (s', .errInner) ∧ L.Inv s' ∧ k < ts.length ∧
+      SameSet (I.quads s') (((ts.take k).map (withG g)).reverse ++ I.quads s) ∧
+      (∀ x : Quad, gnameEq g x.g = false → qmem x (I.quads s') = qmem x (I.quads s))) := by
+  have other : ∀ (l : List Quad) (l' : List Quad), SameSet l' ((l.map (withG g)).reverse ++ I.quads s) →
+      ∀ x : Quad, gnameEq g x.g = false → qmem x l' = qmem x (I.quads s) := by
+    intro l l' h x hx
+    rw [h x, qmem_append]
+    have : qmem x (l.map (withG g)).reverse = false := by
+      rw [qmem_false_iff]
+      intro y hy
+      exact qmem_false_iff.1 (qmem_withG_other g l x hx) y (List.mem_reverse.1 hy)
+    rw [this, Bool.false_or]
+  rcases insertAll_lawful L (dg_insIs (I := I) forwarding_flags_now.1 g) (fun _ h3 => by omega) ts 0 hs with
+    ⟨s', c, he, hi, hS⟩ | ⟨s', k, he, hi, hk, hS⟩
+  · exact Or.inl ⟨s', c, he, hi, hS, other _ _ hS⟩
+  · exact Or.inr ⟨s', k, he, hi, hk, hS, other _ _ hS⟩
+
+/-- … and for set stores a successful `insert_all` through the view counts the effective insertions of the
+plain-list specification -/
+theorem view_insert_all_count (L : LawfulSet I) {s s' : σ} (hs : L.Inv s) (h4 : I.n = 4) (g : GName) (ts : List Quad)
+    (c : Nat) (h : DatasetGraph.insertAll I s g ts = (s', .ok c)) :
+    c = (specInsertAll (I.quads s) (ts.map (withG g)) 0).2 ∧
+      SameSet (I.quads s') (specInsertAll (I.quads s) (ts.map (withG g)) 0).1 :=
+  insertAll_lawfulSet L (dg_insIs (I := I) forwarding_flags_now.1 g) (fun _ h3 => by omega) ts 0 c _ hs (SameSet.refl _) h
+
+/-! ### bulk mutations through `as_dataset_mut()` -/
+
+/-- **`remove_all` through `as_dataset_mut()`** (the `MutableDataset` default over the view): it never fails;
+quads of named graphs are ignored; the graph loses exactly the listed triples of the default graph -/
+theorem as_dataset_mut_remove_all (L : Lawful I) {s : σ} (hs : L.Inv s) (qs : List Quad) :
+    ∃ s' c, GraphAsDataset.removeAll I s qs = (s', .ok c) ∧ L.Inv s' ∧
+      SameSet (I.quads s') ((I.quads s).filter (fun x => !qmem x (qs.filterMap asTriple))) := by
+  refine removeAll_lawful L (gad_remIs (I := I) forwarding_flags_now.2.2.2.1) ?_ qs 0 hs
+  intro t q hq _
+  unfold asTriple at hq
+  split at hq
+  · cases hq; rfl
+  · cases hq
+
+theorem as_dataset_mut_remove_all_count (L : LawfulSet I) {s : σ} (hs : L.Inv s) (qs : List Quad) :
+    (GraphAsDataset.removeAll I s qs).2 = .ok (specRemoveAll (I.quads s) (qs.filterMap asTriple) 0).2 := by
+  obtain ⟨s', he, _, _⟩ := removeAll_lawfulSet L (gad_remIs (I := I) forwarding_flags_now.2.2.2.1) (by
+    intro t q hq _
+    unfold asTriple at hq
+    split at hq
+    · cases hq; rfl
+    · cases hq) qs 0 _ hs (SameSet.refl _)
+  show (Defaults.removeAll (GraphAsDataset.remove I) s qs 0).2 = _
+  rw [he]
+
+/-- **`insert_all` through `as_dataset_mut()`, all quads in the default graph**: as for `graph_mut` -/
+theorem as_dataset_mut_insert_all (L : Lawful I) {s : σ} (hs : L.Inv s) (qs : List Quad) (hq : ∀ q ∈ qs, q.g = none) :
+    (∃ s' c, GraphAsDataset.insertAll I s qs = (s', .ok c) ∧ L.Inv s' ∧
+      SameSet (I.quads s') ((qs.map (withG none)).reverse ++ I.quads s)) ∨
+    (∃ s' k, GraphAsDataset.insertAll I s qs = (s', .errInner) ∧ L.Inv s' ∧ k < qs.length ∧
+      SameSet (I.quads s') (((qs.take k).map (withG none)).reverse ++ I.quads s)) := by
+  have hins : InsIs I (fun s q => callMut I .insert s (withG none q)) (withG none) := fun _ _ => rfl
+  have hc : GraphAsDataset.insertAll I s qs = Defaults.insertAll (fun s q => callMut I .insert s (withG none q)) s qs 0 := by
+    refine defaults_insertAll_congr qs s 0 ?_
+    intro q hqm s1
+    unfold GraphAsDataset.insert
+    rw [hq q hqm, forwarding_flags_now.2.2.1]; rfl
+  rw [hc]
+  exact insertAll_lawful L hins (fun _ _ => rfl) qs 0 hs
+
+/-- … and a quad of a named graph is refused: the insertion ends there with `OnlyDefaultGraph`, the quads
+before it inserted (first element named: nothing changes) -/
+theorem as_dataset_mut_insert_all_named (s : σ) (q : Quad) (qs : List Quad) (hq : q.g ≠ none) :
+    GraphAsDataset.insertAll I s (q :: qs) = (s, .errOnlyDefaultGraph) := by
+  show (match GraphAsDataset.insert I s q with
+    | (s', .ok b) => Defaults.insertAll (GraphAsDataset.insert I) s' qs (if b then 0 + 1 else 0)
+    | (s', .errInner) => (s', .errInner)
+    | (s', .errOnlyDefaultGraph) => (s', .errOnlyDefaultGraph)) = _
+  have : GraphAsDataset.insert I s q = (s, .errOnlyDefaultGraph) := by
+    unfold GraphAsDataset.insert
+    cases hg : q.g with
+    | none => exact absurd hg hq
+    | some g => rfl
+  rw [this]
+
+/-! ### histories on ANY lawful set implementation, bulk operations through views included -/
+
+theorem step_views (L : LawfulSet I) (h4 : I.n = 4) {s : σ} {d : List Quad} (hs : L.Inv s)
+    (hd : SameSet (I.quads s) d) (op : GOp) (hok : (stepG I s op).2 = true) :
+    L.Inv (stepG I s op).1 ∧ SameSet (I.quads (stepG I s op).1) (specG d op) := by
+  have insCase : ∀ q : Quad, (I.insert s q).2.isSome = true →
+      L.Inv (I.insert s q).1 ∧ SameSet (I.quads (I.insert s q).1) (Spec.insert d q).1 := by
+    intro q hq
+    refine ⟨L.ins_inv q hs (fun h3 => by omega), ?_⟩
+    cases hi : I.insert s q with
+    | mk s1 o =>
+      rw [hi] at hq
+      cases o with
+      | none => cases hq
+      | some b => exact (L.ins_ok hs (fun h3 => by omega) hi).trans (spec_insert_fst hd q)
+  have remCase : ∀ q : Quad,
+      L.Inv (I.remove s q).1 ∧ SameSet (I.quads (I.remove s q).1) (Spec.remove d q).1 :=
+    fun q => ⟨L.rem_inv q hs, (L.rem_ok q hs (fun h3 => by omega)).trans (spec_remove_fst hd q)⟩
+  cases op with
+  | ins q => exact insCase q hok
+  | rem q => exact remCase q
+  | vIns g t =>
+    have h := dg_insIs (I := I) forwarding_flags_now.1 g s t
+    have h' : DatasetGraph.insert I s g t = ((I.insert s (withG g t)).1, MutRes.ofOption (I.insert s (withG g t)).2) := h
+    show L.Inv (DatasetGraph.insert I s g t).1 ∧ SameSet (I.quads (DatasetGraph.insert I s g t).1) _
+    have hok' : resOk (DatasetGraph.insert I s g t).2 = true := hok
+    rw [h'] at hok' ⊢
+    refine insCase (withG g t) ?_
+    revert hok'
+    cases (I.insert s (withG g t)).2 <;> simp [MutRes.ofOption, resOk]
+  | vRem g t =>
+    have h := dg_remIs (I := I) forwarding_flags_now.2.1 g s t
+    have h' : DatasetGraph.remove I s g t = ((I.remove s (withG g t)).1, .ok (I.remove s (withG g t)).2) := h
+    show L.Inv (DatasetGraph.remove I s g t).1 ∧ SameSet (I.quads (DatasetGraph.remove I s g t).1) _
+    rw [h']
+    exact remCase (withG g t)
+  | vInsAll g ts =>
+    show L.Inv (DatasetGraph.insertAll I s g ts).1 ∧ SameSet (I.quads (DatasetGraph.insertAll I s g ts).1) _
+    have hok' : bulkOk (DatasetGraph.insertAll I s g ts).2 = true := hok
+    rcases view_insert_all L.toLawful hs h4 g ts with ⟨s', c, he, hi, _, _⟩ | ⟨s', k, he, _, _, _, _⟩
+    · rw [he]
+      exact ⟨hi, (insertAll_lawfulSet L (dg_insIs (I := I) forwarding_flags_now.1 g) (fun _ h3 => by omega) ts 0 c d hs hd he).2⟩
+    · rw [he] at hok'; cases hok'
+  | vRemAll g ts =>
+    show L.Inv (DatasetGraph.removeAll I s g ts).1 ∧ SameSet (I.quads (DatasetGraph.removeAll I s g ts).1) _
+    obtain ⟨s', he, hi, hS⟩ := removeAll_lawfulSet L (dg_remIs (I := I) forwarding_flags_now.2.1 g) (fun _ _ _ h3 => by omega) ts 0 d hs hd
+    rw [filterMap_some_map] at he hS
+    have he' : DatasetGraph.removeAll I s g ts = (s', .ok (specRemoveAll d (ts.map (withG g)) 0).2) := he
+    rw [he']
+    exact ⟨hi, hS⟩
+  | vRemM g sm pm om =>
+    show L.Inv (DatasetGraph.removeMatching I s g sm pm om).1 ∧ SameSet (I.quads (DatasetGraph.removeMatching I s g sm pm om).1) _
+    obtain ⟨s', c, he, hi, hS, _⟩ := view_remove_matching L.toLawful hs h4 g sm pm om
+    rw [he]
+    exact ⟨hi, hS.trans (SameSet.filter (resp_remM g sm pm om) hd)⟩
+  | vRetM g sm pm om =>
+    show L.Inv (DatasetGraph.retainMatching I s g sm pm om).1 ∧ SameSet (I.quads (DatasetGraph.retainMatching I s g sm pm om).1) _
+    obtain ⟨s', c, he, hi, hS, _⟩ := view_retain_matching L.toLawful hs h4 g sm pm om
+    rw [he]
+    exact ⟨hi, hS.trans (SameSet.filter (resp_retM g sm pm om) hd)⟩
+
+/-- **Coherence over histories, for every lawful set implementation** (indexed stores in `Good` states, std
+`HashSet` / `BTreeSet` of quads): after any history of direct insertions / removals and of mutations through
+`graph_mut(g)` — single ones and the four default bulk methods, any graph names — that did not hit the store's
+own error, the invariant holds and the store holds exactly (modulo `Term::eq`) what the plain-list
+specification holds after the corresponding operations "on the quads named `g`" -/
+theorem run_views_coherent (L : LawfulSet I) (h4 : I.n = 4) :
+    ∀ (ops : List GOp) {s : σ} {d : List Quad}, L.Inv s → SameSet (I.quads s) d → (runG I s ops).2 = true →
+      L.Inv (runG I s ops).1 ∧ SameSet (I.quads (runG I s ops).1) (ops.foldl specG d)
+  | [], _, _, hs, hd, _ => ⟨hs, hd⟩
+  | op :: ops, s, d, hs, hd, hok => by
+    have hrun : runG I s (op :: ops) =
+        if (stepG I s op).2 then runG I (stepG I s op).1 ops else ((stepG I s op).1, false) := rfl
+    rw [hrun] at hok ⊢
+    cases hstep : (stepG I s op).2 with
+    | false => rw [hstep] at hok; cases hok
+    | true =>
+      rw [hstep] at hok
+      simp only [if_true] at hok ⊢
+      obtain ⟨h1, h2⟩ := step_views L h4 hs hd op hstep
+      exact run_views_coherent L h4 ops h1 h2 hok
+
+/-- `run_views_coherent` for every shipped dataset type: the indexed datasets (both generated descriptions,
+any index width) from the empty store, std `HashSet` / `BTreeSet` of quads from the empty set -/
+theorem run_views_coherent_store_types (ops : List GOp) :
+    (∀ d ∈ [Gen.genericLightDataset, Gen.genericFastDataset], ∀ max : Nat,
+      (runG (storeImpl d) (St.new d.shape max) ops).2 = true →
+        Good d (runG (storeImpl d) (St.new d.shape max) ops).1 ∧
+        SameSet (abs (runG (storeImpl d) (St.new d.shape max) ops).1) (ops.foldl specG [])) ∧
+    ((runG (setImpl 4) [] ops).2 = true →
+        SetInv 4 (runG (setImpl 4) [] ops).1 ∧ SameSet (runG (setImpl 4) [] ops).1 (ops.foldl specG [])) := by
+  refine ⟨?_, fun hok => ?_⟩
+  · intro d hd max hok
+    simp only [List.mem_cons, List.mem_nil_iff, or_false] at hd
+    have hdn : descOK d = true ∧ d.n = 4 := by
+      rcases hd with rfl | rfl
+      · exact ⟨gen_tables_ok.1, rfl⟩
+      · exact ⟨gen_tables_ok.2.1, rfl⟩
+    have h0 : SameSet ((storeImpl d).quads (St.new d.shape max)) [] := SameSet.of_eq (abs_new _ _)
+    exact run_views_coherent (storeLawful d hdn.1) hdn.2 ops (good_new hdn.1 max) h0 hok
+  · exact run_views_coherent (setLawful 4 (Or.inr rfl)) rfl ops
+      (show SetInv 4 [] from ⟨trivial, fun _ _ h => nomatch h⟩) (SameSet.refl _) hok
+
+-- non-vacuity of `run_views_coherent`: a history through views of a `HashSet` of quads — the same triple in
+-- two graphs, `retain_matching` through the view of one of them (which must NOT empty the other one),
+-- `remove_matching` through the view of an absent graph
+example :
+    let t : Quad := ⟨.iri "x:s".toList, .iri "x:p".toList, .iri "x:o".toList, none⟩
+    let u : Quad := ⟨.iri "x:s".toList, .iri "x:p".toList, .bnode "b".toList, none⟩
+    let g1 : GName := some (.iri "x:g".toList)
+    let ops : List GOp := [.vIns g1 t, .ins t, .vInsAll none [u, t], .vInsAll g1 [u],
+      .vRetM g1 .any .any (.arr [.bnode "b".toList]), .vRemM (some (.iri "x:absent".toList)) .any .any .any, .vRemAll none [u]]
+    (runG (setImpl 4) [] ops).2 = true ∧ (runG (setImpl 4) [] ops).1 = [t, ⟨u.s, u.p, u.o, g1⟩] := by
+  decide
+
+end bulk
 
 -- non-vacuity of `run_coherent_now`: a graph history through `as_dataset_mut()`, removal included
 example :
@@ -601,6 +951,16 @@ example :
     UnionGraph.triples I s = [t, t] ∧ DatasetGraph.triples I s (some (.bnode "b".toList)) = [t] ∧
       DatasetGraph.triples I s (some (.iri "x:absent".toList)) = [] ∧
       PartialUnionGraph.triples I s (.kind (some .bnode)) = [t] := by
+  decide
+
+-- non-vacuity for `Vec<Gspo<T>>`: two copies of a quad, one dropped through the view of its graph; the views
+-- show the remaining copy once
+example :
+    let t : Quad := ⟨.iri "x:s".toList, .iri "x:p".toList, .iri "x:o".toList, none⟩
+    let g : GName := some (.iri "x:g".toList)
+    let I := vecFirstImpl 4
+    let s := (DatasetGraph.remove I [⟨t.s, t.p, t.o, g⟩, t, ⟨t.s, t.p, t.o, g⟩] g t).1
+    DatasetGraph.triples I s g = [t] ∧ UnionGraph.triples I s = [t, t] ∧ DatasetGraph.contains I s none t = true := by
   decide
 
 end SophiaProofs.C11
